@@ -21,7 +21,7 @@ fn pb(v: &Val) -> PathBuf {
     PathBuf::from(OsStr::from_bytes(&v.bytes()))
 }
 
-/// case: (cwd xdg_config_home opts custom_names ignore_files globs types max_depth_opt roots)
+/// case: (cwd xdg_config_home opts custom_names ignore_files globs types max_depth_opt roots follow_links)
 ///   opts = (hidden ignore parents git_global git_ignore git_exclude require_git)
 ///   types = list of (ext negated)
 /// result: (status files) with files = sorted list of paths the haystack filter lets through
@@ -72,6 +72,7 @@ pub fn run_lib_files(v: &Val) -> Val {
         .git_ignore(o.fld(4).b())
         .git_exclude(o.fld(5).b())
         .require_git(o.fld(6).b())
+        .follow_links(v.fld(9).b())
         .max_depth(v.fld(7).opt().map(|d| d.us()))
         .overrides(ob.build().unwrap())
         .types(tb.build().unwrap());
